@@ -69,26 +69,39 @@ def renumber_md(t, rnd):
     return t
 
 
+def _fetch_family(arg):
+    prop, entry, workers = arg
+    (name, fam, budget, keep) = entry[:4]
+    walks = entry[4] if len(entry) > 4 else None       # seeded random walks instead of BFS
+    if walks:
+        progs, st = common.gen_programs(prop, name, fam, budget, simulate=f"num={max(1, walks // 16)}",
+                                        extra_args=["-depth", "80", "-seed", str(common.seed() + 11)])
+    else:
+        progs, st = common.gen_programs(prop, name, fam, budget, workers=workers)
+    total = len(progs)
+    if prop == "C15":
+        progs = [p for p in progs if has_call(p, "MetaData")]
+    if keep is not None:
+        progs = common.subsample_stratified(progs, keep, salt=name)
+    return progs, total, {k: v for k, v in st.items() if k not in ("stdout", "output")}
+
+
 def run(prop, tier):
     rep = common.Report(prop, tier)
     plan = PLANS[prop]
     jobs = []
     fam_counts = {}
     rnd = random.Random(common.seed() + 17)
-    for entry in plan[tier]:
+    if tier == "quick":
+        # the families are generated (TLC), loaded and sub-sampled side by side, each by a forked worker
+        import multiprocessing
+        with multiprocessing.get_context("fork").Pool(min(6, len(plan[tier]))) as pool:
+            fetched = pool.map(_fetch_family, [(prop, e, 4) for e in plan[tier]])
+    else:
+        fetched = (_fetch_family((prop, e, 16)) for e in plan[tier])
+    for entry, (progs, total, st) in zip(plan[tier], fetched):
         (name, fam, budget, keep) = entry[:4]
-        walks = entry[4] if len(entry) > 4 else None       # seeded random walks instead of BFS
-        if walks:
-            progs, st = common.gen_programs(prop, name, fam, budget, simulate=f"num={max(1, walks // 16)}",
-                                            extra_args=["-depth", "80", "-seed", str(common.seed() + 11)])
-        else:
-            progs, st = common.gen_programs(prop, name, fam, budget)
         rep.add_tlc(st)
-        total = len(progs)
-        if prop == "C15":
-            progs = [p for p in progs if has_call(p, "MetaData")]
-        if keep is not None:
-            progs = common.subsample_stratified(progs, keep, salt=name)
         fam_counts[name] = {"generated": total, "replayed": len(progs), "budget": budget,
                             "exhaustive": keep is None or len(progs) < keep}
         for p in progs:
